@@ -21,7 +21,7 @@ from vlib.dialects import make_encoder, ENCODERS
 
 ID = "C13"
 LEVEL = "exploration"
-BUDGET = {"quick": 150, "thorough": 900}
+BUDGET = {"quick": 200, "thorough": 1200}
 RULE = (
     "case = (encoder, options, call style, module spec). 40% of specs are forced "
     "into block-heavy shapes: only groups at top level, duplicate block names, a "
@@ -146,7 +146,8 @@ def cases(enc):
         "style": st.sampled_from(["instance", "instance-interleaved",
                                   "instance-interleaved", "dumps-fresh",
                                   "dumps-default", "other-encoder-registers",
-                                  "shared-decoder", "other-dialects-between"])})
+                                  "shared-decoder", "other-dialects-between",
+                                  "new-dumps-between"])})
 
 
 def run_case(case):
@@ -215,6 +216,24 @@ def run_case(case):
                     except (ValueError, TypeError):
                         pass
                 t = encoder.encode(m)
+            elif style == "new-dumps-between":
+                if call:
+                    # the same encoder object is handed to pvl.new.dumps (and
+                    # pvl.new.dump) between the calls: for a module of the new container
+                    # family, for a plain one and for this one
+                    import io
+                    from pvl import new as pvl_new
+                    import pvl.collections as pc
+                    newfam = gv.build_module([["g", {"grp": [["x", 1]]}], ["k", 2]],
+                                             pc.PVLModuleNew, pc.PVLGroupNew,
+                                             pc.PVLObjectNew)
+                    for other in [newfam] + unrelated + [m]:
+                        try:
+                            pvl_new.dumps(other, encoder=encoder)
+                            pvl_new.dump(other, io.StringIO(), encoder=encoder)
+                        except (ValueError, TypeError):
+                            pass
+                t = encoder.encode(m) if call < 2 else pvl.dumps(m, encoder=encoder)
             elif style == "instance-interleaved":
                 if call:
                     # between the calls the same encoder writes other modules that
@@ -346,7 +365,7 @@ def fresh_cases(acc, enc, n, seed):
 
         for spec in WRAPPED:
             for style in ("other-dialects-between", "instance-interleaved",
-                          "shared-decoder", "dumps-default"):
+                          "shared-decoder", "dumps-default", "new-dumps-between"):
                 for cfg in ({}, {"width": 40}):
                     one({"enc": enc, "cfg": cfg, "spec": spec, "style": style,
                          "others": [PROVOKERS[-3]], "iterval": None})
